@@ -105,8 +105,10 @@ CHECKS = {
     "C19": dict(level="exploration", ref="DESIGN.md §4 C19",
                 text="Seeded schedules of the real DetectDeviceConfigChanges over a simulated inotify/fsnotify: user writes (single/multi write(), append, create, atomic rename, "
                      "remove, nested) to TOML and look-alike names, a prompt or late consumer, cancellation at any time: every in-place modification of a *.toml file is followed "
-                     "by a notification, no notification without one, never more notifications than write operations, the stream closes after cancel."
-                     " A tenth of the runs use the manager world W7: the real Manager.Run (watcher, loader, fan-out, one real device per connected input device) against a harness that is device discovery, the evdev source of every device, the MIDI port and a user who plugs, unplugs, plays and saves configuration files; there: a save is followed by a new discovery cycle and the saved content is in force for the reconnected devices; unrelated files cause no reload.",
+                     "by a notification, no notification without one, never more notifications than write operations, the stream closes after cancel. "
+                     "In a share of the runs the consumer stops reading at the moment of the shutdown (as Manager.Run does; the watcher and everything it started must end all the same), "
+                     "the shutdown comes in the same instant as a user operation, the consumer is seconds late, or the user writes as soon as DetectDeviceConfigChanges has returned."
+                     " A fifth of the runs use the manager world W7: the real Manager.Run (watcher, loader, fan-out, one real device per connected input device) against a harness that is device discovery, the evdev source of every device, the MIDI port and a user who plugs, unplugs, plays and saves configuration files; there: a save (possibly followed by a second one inside the reload it caused, or written some time after the truncation) is followed by a new discovery cycle and, checked by a key tap on every connected device after every save, the saved content is in force for the reconnected devices; unrelated files cause no reload; saves right before the shutdown leave nothing running.",
                 note="fsnotify and the kernel are replaced by a stub that mirrors fsnotify 1.5.1's observable contract; its Errors path and queue overflow are not modelled."),
     "C20": dict(level="exploration", ref="DESIGN.md §4 C20",
                 text="The real input.Normalize on generated handler multisets in six discovery orders, each with a PRNG map-iteration order: partition, grouping by physical "
